@@ -23,15 +23,7 @@ def bin_of(v):
 
 
 def stamp_fn(m):
-    """the queue-stamp method: returns max(clock, counter) and stores result + 1 in the counter"""
-    if m.f_stamp is None:
-        return None
-    for f in m.book_all_fns():
-        q = m.q(f)
-        ws = [w for w in q.writes(field=m.f_stamp) if w.root[0] == "param"]
-        if ws and f.sig.endswith("-> u64"):
-            return f
-    return None
+    return m.stamp_fn()
 
 
 def is_clock_like(m, e, stamp):
@@ -43,19 +35,37 @@ def is_clock_like(m, e, stamp):
     return None
 
 
-def run(ctx):
-    m = Model(ctx)
-    stamp = stamp_fn(m)
-    if stamp is not None:
-        from .c05 import stamp_rules
-        stamp_rules(ctx, m, prefix="K3-stamp")
-    ts, roots, _ld = run_typestate(ctx, m)
+def read_after(q, raw, addr, write):
+    """every load of `addr` inside the (unstripped) value `raw` happens after the write `write` (same block later, or a
+    block the write's block dominates)"""
+    from analysis.origin import strip
+    if raw is None:
+        return False
+    pts = [x[2] for x in walk(raw) if x[0] == "load" and same(strip(x[1]), addr)]
+    if not pts:
+        return False
+    wi = write.i if write.i is not None else 1 << 20
+    for (b, i) in pts:
+        if b == write.b:
+            if i <= wi:
+                return False
+        elif not q.body.dominates(write.b, b):
+            return False
+    return True
 
-    # ---------------------------------------------------------------- K1 / K3: key writes
-    key_builders = {"get_bid_key": "Bid", "get_ask_key": "Ask"}
+
+KEY_BUILDERS = {"get_bid_key": "Bid", "get_ask_key": "Ask"}
+
+
+def key_write_rules(ctx, m, op_roots, k1="K1-key-price", k3="K3-queue-time"):
+    """K1 / K3 on every priority-key write in the whole-operation views of `op_roots` (a key may be rebuilt in a helper
+    shared by placement and replacement); returns the number of key writes judged"""
+    key_builders = KEY_BUILDERS
+    stamp = stamp_fn(m)
     n_key = 0
-    for f in m.book_all_fns():
-        q = m.q(f)
+    for f in op_roots:
+
+        q = m.ov(f)
         price_writes = q.writes(field="price", owner="Order")
         for w in q.writes(field="key", owner="OrderEntry"):
             n_key += 1
@@ -71,29 +81,45 @@ def run(ctx):
                 tcomp = v[2][0]
                 pcomp = ("price", v[2][1])
             else:
-                ctx.bad("K1-key-price", "shape|" + f.short(), w.loc(), "priority key written with an unrecognised value: " + w.text())
+                ctx.bad(k1, "shape|" + f.short(), w.loc(), "priority key written with an unrecognised value: " + w.text())
                 continue
             # K3
             kind = is_clock_like(m, tcomp, stamp)
             if stamp is not None and kind == "clock":
                 kind = None  # mixing raw clock values with stamps breaks their monotone order (a stamp may run ahead of the clock)
-            ctx.check(kind is not None, "K3-queue-time", f.short() + "|" + str(side), w.loc(),
+            ctx.check(kind is not None, k3, f.short() + "|" + str(side), w.loc(),
                       "key time component <- %s (%s)" % (render(tcomp), "book clock at the call" if kind == "clock" else "strictly increasing queue stamp >= clock"),
                       "key time component is %s: must be the %s at the call, never a stored order field, a constant%s" % (
                           render(tcomp), "queue stamp" if stamp is not None else "book clock", " or the raw clock (stamps may run ahead of it)" if stamp is not None else ""))
             # K1
             if pcomp[0] == "raw":
-                ok = same(pcomp[1], ("field", ("field", X, "key", ""), "1", "")) and not [p for p in price_writes if same(p.addr[1], ("field", X, "order", ""))]
-                ctx.check(ok, "K1-key-price", f.short() + "|keep|" + str(side), w.loc(),
-                          "key price component kept from the stored key (price not rewritten in this function)",
+                ok = same(pcomp[1], ("field", ("field", X, "key", ""), "1", "")) and not [p for p in price_writes if same(p.addr[1], ("field", X, "order", "")) and q.cfg.can_reach(p.b, w.b)]
+                ctx.check(ok, k1, f.short() + "|keep|" + str(side), w.loc(),
+                          "key price component kept from the stored key (price not rewritten earlier in this operation)",
                           "key price component is %s (expected the stored key's price component, with the price unchanged)" % render(pcomp[1]))
             else:
-                pw = [p for p in price_writes if same(p.addr[1], ("field", X, "order", ""))]
+                pw = [p for p in price_writes if same(p.addr[1], ("field", X, "order", "")) and q.cfg.can_reach(p.b, w.b)]
+                own_price = ("field", ("field", X, "order", ""), "price", "")
                 ok = (len(pw) == 1 and pw[0].val == pcomp[1] and q.body.dominates(pw[0].b, w.b)) or \
-                     same(pcomp[1], ("field", ("field", X, "order", ""), "price", ""))
-                ctx.check(ok, "K1-key-price", f.short() + "|new|" + str(side), w.loc(),
+                     (same(pcomp[1], own_price) and all(read_after(q, w.rawval, own_price, p) for p in pw))
+                ctx.check(ok, k1, f.short() + "|new|" + str(side), w.loc(),
                           "key price component <- %s-side transform of the value assigned to the order's price (%s)" % (side, render(pcomp[1])),
                           "key built from %s but the order's price is %s" % (render(pcomp[1]), "; ".join(p.text() for p in pw) or "not written here"))
+    return n_key
+
+
+def run(ctx):
+    m = Model(ctx)
+    stamp = stamp_fn(m)
+    if stamp is not None:
+        from .c05 import stamp_rules
+        stamp_rules(ctx, m, prefix="K3-stamp")
+    ts, roots, _ld = run_typestate(ctx, m)
+
+    # ---------------------------------------------------------------- K1 / K3: key writes
+    key_builders = KEY_BUILDERS
+    op_roots = [f_ for f_ in m.book_pub_fns() if f_.params and f_.params[0] == "self"]
+    n_key = key_write_rules(ctx, m, op_roots)
     ctx.check(n_key >= 4, "K1-key-price", "census", "-", "%d live key writes analysed" % n_key)
     # creation: key = side key-builder(order.price) under the matching side guard
     create = m.book_fn("create_order")
@@ -133,8 +159,8 @@ def run(ctx):
         ctx.check(ok, "K1-key-price", "create|entry", pushes[0].loc(), "the stored entry pairs the order with the key built from that order's price",
                   "the stored entry's key is not built from the stored order's price")
     # price writes: only where the key is rebuilt afterwards
-    for f in m.lib_fns("bourse_book"):
-        q = m.q(f)
+    for f in op_roots:
+        q = m.ov(f)
         for pw in q.writes(field="price", owner="Order"):
             E = pw.addr[1]
             X = E[1] if E[0] == "field" and E[2] == "order" else None
@@ -247,42 +273,59 @@ def run(ctx):
         ctx.check(prog_ok, "K4-loop", f.short() + "|progress", c.loc(), "every iteration either fills (trade writer called) or leaves the loop",
                   "an iteration can return to the loop head without a fill and without leaving")
         # aggressor side = opposite(r) in every calling context
-        sides = set()
-        n_ctx = 0
-        for (caller, callee, ent, where) in ts.calls:
-            if callee.path == f.path:
-                n_ctx += 1
-                for k, ss in ent.items():
-                    sides |= set(ss)
-        ctx.check(n_ctx >= 1 and sides == {opposite(r)}, "K4-loop", f.short() + "|aggressor-side", ctx.loc(f),
-                  "in all %d calling contexts the aggressor is a %s order matched against the %s side" % (n_ctx, opposite(r), r),
-                  "%s (popping the %s side) is called with an aggressor that may be on side(s) %s" % (f.short(), r, sorted(sides)))
+        # (the typestate runs on whole-operation views: the contexts are the fills it meets, see `K4-fill-sides` below)
+    # aggressor and passive order of every fill are on opposite sides (typestate side attribute at each trade-writer call)
+    tws = {f_.path for (f_, _c) in m.trade_writers()}
+    n_fill = 0
+    for (caller, callee, ent, where) in ts.calls:
+        if callee.path not in tws:
+            continue
+        n_fill += 1
+        ss = [set(v) for v in ent.values()]
+        ok = len(ss) == 2 and all(len(x) == 1 for x in ss) and ss[0] != ss[1]
+        ctx.check(ok, "K4-fill-sides", "%s|%s" % (caller.short(), where.split(" (")[0].split(":")[-1] if False else caller.short()), where,
+                  "the two orders of a fill are on opposite sides (%s)" % {k: sorted(v) for k, v in ent.items()},
+                  "a fill can pair orders whose sides are %s (aggressor and passive must be on opposite sides)" % {k: sorted(v) for k, v in ent.items()})
+    ctx.check(n_fill >= 2, "K4-fill-sides", "census", "-", "%d fill contexts examined by the typestate" % n_fill)
     # ---------------------------------------------------------------- K4-run: the loop runs whenever trading is on
     # An incoming / re-priced order must be offered to the opposite side on EVERY path (given trading): the only
     # conditions a matching call may depend on are the trading flag, the order's own side / kind / status
     # discriminants.  Any price/volume/market-data dependent shortcut ("cannot cross, skip matching") is a violation.
-    mpaths = {f.path: s for (f, s, _c) in matchers}
-    n_run = 0
-    for f in m.book_all_fns():
-        q = m.q(f)
-        for c in q.calls():
-            if c.target is None or c.target.path not in mpaths:
+    # Judged as a must-pass rule on the whole-operation view of place_order (replacements always re-insert, so for them
+    # `K4-match-before-rest` below is the same statement): for either side S of the incoming order, every path from the
+    # entry to a normal return that does not see trading == false and does not bail out on the order's status passes
+    # through a matching loop whose passive side is opposite(S).
+    pf = m.book_fn("place_order")
+    q = m.ov(pf)
+    loops = m.ov_matching_loops(q)
+    ctx.check(len(loops) >= 2 and {sd for (_h, sd, _c) in loops} == {"Bid", "Ask"}, "K4-run", "census", ctx.loc(pf),
+              "%d matching loops inside the whole-operation view of place_order (both passive sides)" % len(loops))
+    heads_all = {h for (h, _sd, _c) in loops}
+    rets = q.body.return_blocks()
+    for S in ("Bid", "Ask"):
+        cut_edges = []
+        for blk in q.body.blocks:
+            t = blk.term
+            if blk.cleanup or not t or t.k != "switch":
                 continue
-            n_run += 1
-            extra = []
-            for a in c.guards:
-                if a[0] == "variant":
-                    continue
-                if a[0] == "bool" and fld(a[1], m.f_trading) and a[2] is True:
-                    continue
-                if a[0] == "cmp" and a[1] in ("eq", "ne") and any(x[0] == "field" and x[2] == "status" for x in (a[2], a[3])):
-                    continue
-                extra.append(a)
-            ctx.check(not extra, "K4-run", "%s|%s" % (f.short(), c.name), c.loc(),
-                      "the %s-side matching loop is entered on every path with trading on (conditions: %s)" % (mpaths[c.target.path], c.gtext() or "none"),
-                      "the %s-side matching loop is skipped unless [%s]: an order that crosses can rest (or a market order go unmatched) without trading" % (
-                          mpaths[c.target.path], " && ".join(render_atom_safe(a) for a in extra)))
-    ctx.check(n_run >= 6, "K4-run", "census", "-", "%d matching call sites (limit, market, replacement x 2 sides)" % n_run)
+            for s2 in set(q.body.succs(blk.i)):
+                for a in q.cfg.edge_atoms(blk.i, s2):
+                    if a[0] == "bool" and a[2] is False and fld(a[1], m.f_trading):
+                        cut_edges.append((blk.i, s2))
+                    elif a[0] == "variant" and set(a[2]) <= {"Bid", "Ask"} and S not in a[2]:
+                        cut_edges.append((blk.i, s2))
+                    elif a[0] == "cmp" and a[1] in ("eq", "ne") and any(x[0] == "field" and x[2] == "status" for x in (a[2], a[3])) \
+                            and not (q.cfg.reach_from(s2) & heads_all):
+                        cut_edges.append((blk.i, s2))     # bail-out on the order's status (already placed)
+        good = {h for (h, sd, _c) in loops if sd == opposite(S)}
+        reach = q.cfg.reach_from(0, cut_edges=cut_edges, cut_blocks=good)
+        skipped = [rb for rb in rets if rb in reach]
+        ctx.check(bool(good) and not skipped, "K4-run", "place_order|" + S, ctx.loc(pf),
+                  "a new %s order is offered to the %s side's matching loop on every path with trading on" % (S, opposite(S)),
+                  "place_order can return for a new %s order with trading on without entering the %s-side matching loop: an order that crosses can rest (or a market order go unmatched) without trading" % (S, opposite(S)))
+        wrong = [h for (h, sd, _c) in loops if sd == S and h in reach]
+        ctx.check(not wrong, "K4-run", "place_order|wrong-side|" + S, ctx.loc(pf), "a new %s order never enters the %s-side (its own side's) matching loop" % (S, S),
+                  "a new %s order can enter the matching loop over its own side" % S)
     c02.never_crossed(ctx, m, rule="K4-match-before-rest")
 
     # ---------------------------------------------------------------- K5 fill rule
